@@ -16,6 +16,9 @@ TRUSTED = {
             'X-FLOAT: >f/>d pack is IEEE-754 (uninterpreted ieee32/ieee64; OverflowError for >f abstracted by a predicate)',
             'X-STR: str.encode("ascii")', 'X-DT: datetime.astimezone(utc) yields calendar-range fields',
             'X-ROUND: round(us/1000) closed form (validated exhaustively for 0 <= us < 10**6 in the thorough tier)'],
+    'C13': ['X-NPSTEP (pyvc/npstats.py): np.diff gives the consecutive differences; np.unique keeps the set of elements sorted ascending; element-wise operators with a scalar act per element; '
+            'np.median / np.mean lie between the least and the greatest element; A.all() true => the predicate holds for the least and greatest element, false => it fails for some value between them '
+            '(over-approximation, exact for interval predicates). Validated against the installed numpy on every run (bounded/axioms.py)'],
     'C10': ['X-OS: open(f, "wb") truncates, "ab" appends; f.write(b) appends b; content visible when the with-block exits'],
     'C15': ['X-STRUCT: struct.Struct(>B >H).pack'],
     'C16': ['X-STR: str.encode("ascii")', 'X-STRUCT'],
@@ -42,6 +45,9 @@ ASSUMPTIONS = {
           'termination is proved only where a loop variant is stated',
           'exception messages and logging are not modelled',
           'cached_property EFLRItem.obname is taken as absent or consistent with the current name/origin/copy number (its staleness is the open finding c14_stale_obname); any other cached_property is treated as possibly stale'],
+    'C13': ['machine arithmetic treated as mathematical: in FrameItem._compute_spacing_and_direction float64 arithmetic (differences, d/m, squaring, the comparison with 0.001) is encoded over the reals - rounding is not modelled '
+            '(the bounded monitor bounded/c13_spacing.py runs the real floating-point code as a cross-check)',
+            'the kernel contract covers index arrays with at least two rows whose differences are computed exactly: integer wrap-around in np.diff, a single row and NaN are the open findings c13_* (native witnesses)'],
     'C10': ['crash points are decided at flush returns (after ByteWriter.write_bytes returns); a torn OS write is out of scope',
             'float-valued output_chunk_size (integral floats) is not covered by the proof: only int sizes'],
 }
